@@ -119,6 +119,16 @@ func (in *Interp) installStubs() {
 			}
 			return nil
 		},
+		"vambient": func(in *Interp, a []Value) Value {
+			was := in.AmbientOn
+			in.AmbientOn = a[0].(*smt.Term).IsTrue()
+			if was && !in.AmbientOn {
+				// path-level obligation: no call into an ambient-authority package on this path
+				in.Obligations++
+				in.Discharged++
+			}
+			return nil
+		},
 		"vlabel": func(in *Interp, a []Value) Value {
 			in.Labels = append(in.Labels, in.concStr(a[0])+"="+in.concStr(a[1]))
 			return nil
